@@ -15,6 +15,19 @@ CLAIMED = {
             "sides of every internal regime switch, exact special points and negative arguments.",
             "mpmath (validated by oracle self-test against /repo/test/data and quadrature); sampling, not proof",
             "4/C01"),
+    "C02": ("property-based testing (Hypothesis) against an arbitrary-precision mpmath reference; metamorphic symmetry "
+            "and homogeneity relations; generators built around degenerate argument configurations",
+            "Generated argument tuples over the stated ratio domain with exact and near degeneracies, zeros, physical "
+            "quark-mass combinations and thresholds; values are compared with a 100-digit evaluation of the defining "
+            "expressions (literal difference quotients, derivative limits), plus permutation/homogeneity relations.",
+            "mpmath reference validated by self-test; one open known finding (Kaellen zero of the charged functions)",
+            "4/C02"),
+    "C07": ("property-based testing (Hypothesis): metamorphic scaling ladders with an explicit decoupling envelope",
+            "Generated base points are scaled by k = 1..64; the one-loop 1/k^2 law with (MZ/M)^2 corrections, the "
+            "scale independence of the resummation factor, two-sided ratio windows / envelopes for every two-loop part "
+            "and the monotone approach of the uncertainty to its floor are checked on every rung.",
+            "constants C1, C2 calibrated on the unchanged tree with a margin of ~7; 'up to logarithms' read as the stated window",
+            "4/C07"),
     "C03": ("property-based testing (Hypothesis): differential comparison of the library's one-loop results with an "
             "independently written mpmath evaluation (own mass matrices, own diagonalisation, signed-mass convention)",
             "Generated MSSM and THDM parameter points over the stated domain; the reference shares no code, convention "
